@@ -33,7 +33,7 @@ pub fn meta() -> PropMeta {
     rule: "positions from the 5-class generator (sections proj / base_cell) and plane points (x in [-8,8], y in [-2,2]) of classes equatorial / cap interior / cap seam / |y|=1 / |y|=2 / integer x +-2ulp (section plane); non-trivial = position of a non-uniform class, or plane point of a class other than 'equatorial'; distinct by the bits of the two coordinates",
     assumptions: vec![
       "reference = harness' own Calabretta-Roukema formulae; tolerances: 4e-15*max(1,|lon*4/pi|) on (x,y), 1e-14*max(1,|lon|/2pi) rad on the sphere, 1e-14 on the plane round trip".into(),
-      "plane points closer than 1e-12 (plane units) to a pole are compared on y only (their x is not recoverable: the whole segment is one point of the sphere)".into(),
+      "plane points closer than 1e-12 (plane units) to a pole: the x of the plane round trip is not compared (not recoverable: the whole segment is one point of the sphere); the comparison with the reference on the sphere is made down to 1e-13".into(),
     ],
   }
 }
@@ -150,12 +150,25 @@ pub fn check_plane(c: &XY, rec: &mut Rec) -> Result<(), Violation> {
   }
   // reference inverse agrees on the sphere
   let (lr, br) = geom::unproj_ref(x.abs(), y);
-  // closer than 1e-12 plane units to a pole only the latitude is compared (see assumptions)
+  // closer than 1e-13 plane units to a pole only the latitude is compared (see assumptions)
   let near_pole = 2.0 - y.abs() <= 1e-12;
-  let d = if near_pole { (lat - br).abs() } else { geom::ang_dist(lon.abs(), lat, lr, br) };
+  let d = if near_pole { (lat - br).abs().max(if 2.0 - y.abs() > 1e-13 { geom::ang_dist(lon.abs(), lat, lr, br) } else { 0.0 }) } else { geom::ang_dist(lon.abs(), lat, lr, br) };
   rec.metric_max("unproj_vs_ref_rad", d);
   if !(d <= 1e-14) {
     return Err(vf(Violation::new("unproj_formula", "mismatch", format!("unproj({:e}, {:e}) = ({:e}, {:e}) but the reference gives (+-{:e}, {:e}), {:.3e} rad away", x, y, lon, lat, lr, br, d))));
+  }
+  // the base cell of a point given directly in the plane (exactly representable borders, corners,
+  // x = 8): a base cell containing the point
+  {
+    let b = match catch(|| cdshealpix::base_cell_from_proj_coo(x, y)) {
+      Ok(b) => b,
+      Err(p) => return Err(vf(Violation::new("base_cell_plane", "panic", format!("base_cell_from_proj_coo({:e}, {:e}) panicked: {}", x, y, p)))),
+    };
+    let lon_ref = if x < 0.0 { -lr } else { lr };
+    let out = if b < 12 { geom::outside_by(1, Cell { b, i: 0, j: 0 }, lon_ref, br) } else { f64::INFINITY };
+    if !(out <= geom::tau(lon_ref)) {
+      return Err(vf(Violation::new("base_cell_plane", "not_contained", format!("base_cell_from_proj_coo({:e}, {:e}) = {}: the point is {:.3e} plane units outside that base cell", x, y, b, out))));
+    }
   }
   let (x2, y2) = match catch(|| cdshealpix::proj(lon, lat)) {
     Ok(v) => v,
@@ -229,7 +242,8 @@ fn strat_xy() -> BoxedStrategy<XY> {
     3 => cap("cap_interior", (-1.0f64..=1.0).boxed(), (1.0f64..=2.0).boxed()),
     2 => cap("cap_seam", prop_oneof![Just(1.0f64), Just(-1.0f64)].boxed(), (1.0f64..=2.0).boxed()),
     1 => cap("near_pole", (-1.0f64..=1.0).boxed(), (1i32..=17).prop_map(|k| 2.0 - (10.0f64).powi(-k)).boxed()),
-    1 => (-8.0f64..=8.0, sgn(), -2i32..=0).prop_map(|(x, s, k)| XY { x, y: s * nudge(1.0, k), class: "abs_y_1".into() }),
+    1 => (-8.0f64..=8.0, sgn(), -2i32..=2).prop_map(|(x, s, k)| XY { x, y: s * nudge(1.0, k), class: "abs_y_1".into() }),
+    1 => (0u8..4, 1.0f64..=1.999999999999, sgn(), sgn(), -2i32..=2).prop_map(|(q, ay, sx, sy, k)| XY { x: sx * nudge((2 * q + 1) as f64, k), y: sy * ay, class: "cap_facet_centre_meridian".into() }),
     1 => (0u8..4, sgn(), sgn()).prop_map(|(q, sx, sy)| XY { x: sx * (2 * q + 1) as f64, y: sy * 2.0, class: "abs_y_2".into() }),
     2 => (-8i32..=8, -1.0f64..=1.0, -2i32..=2).prop_map(|(xi, y, k)| XY { x: nudge(xi as f64, k).max(-8.0).min(8.0), y, class: "integer_x".into() }),
     1 => (-8i32..=8, sgn()).prop_filter_map("corner inside the image", |(xi, sy)| {
